@@ -174,7 +174,7 @@ FunctorManager::Env FunctorManager::createEnv(Context& caller, unsigned id, cons
     for (size_t i = 0; i < _ctx->_storage_pool.size() && i < pristine->_storage_pool.size(); ++i)
     {
       *(_ctx->_storage_pool[i].symbol) = *(pristine->_storage_pool[i].symbol);
-      _ctx->_storage_pool[i].value = Value(*(pristine->_storage_pool[i].symbol));
+      _ctx->_storage_pool[i].value = std::move(Value(*(pristine->_storage_pool[i].symbol)).to_lvalue(true));
     }
   }
 
